@@ -321,6 +321,10 @@ def run_history(comps, rng, rec, mon, n_utts):
             x.setflags(write=False)
         ctx = config_value("LOG_FLOOR_VALUE", floor)
         ctx.__enter__()
+        strict = monitor.strict_settings() if rng.random() < 0.12 else None
+        if strict is not None:
+            strict.__enter__()
+            rec.count("utterances_under_strict_process_settings")
         try:
             if kind == "chunked":
                 parts = gen.composition(rng, N)
@@ -368,6 +372,8 @@ def run_history(comps, rng, rec, mon, n_utts):
             except Exception:
                 pass
         finally:
+            if strict is not None:
+                strict.__exit__(None, None, None)
             ctx.__exit__(None, None, None)
     return sig
 
